@@ -223,10 +223,17 @@ CLAIMED = {
             "For tapes of 1-3 measurements over 13 measurement shapes (sums of <= 3 terms with Identity anywhere, SProd, plain, "
             "non-expectation measurements): every original measurement j is recovered as offsets[j] + sum coeff*val(single-term "
             "measurement), in the original order, unwrapped for a single measurement; shared single-term measurements are "
-            "re-used correctly; scalar coefficients, identity terms and constant offsets preserved (539 VCs).",
+            "re-used correctly; scalar coefficients, identity terms and constant offsets preserved. _split_operations (batch_params "
+            "/ batch_input): for operator lists with 1-3 parameters per gate and EVERY subset of batched slots, output tape b "
+            "carries the b-th slice of exactly the batched parameters and the others unchanged. diagonalize_measurements "
+            "(_diagonalize_subset_of_pauli_obs and its helpers, incl. the default handler for non-Pauli observables): at most one "
+            "basis change per wire, none on wires sampled in the computational basis (all tape wires for wire-less "
+            "probs/sample/counts), leaves switched to Z exactly when their wire got their basis change, ValueError exactly for "
+            "clashing inputs (symbolic wire labels and supported sets, lists of <= 3 measurements).",
             "Size-bounded in shapes, complete in values; linearity of expectation values and val(expval(I)) == 1 are assumed "
-            "axioms; grouping strategies, tape construction, diagonalize_measurements / sign_expand / broadcast_expand / "
-            "batch_* and execution are outside. F13 fixed in repo.",
+            "axioms; bind_new_parameters, diagonalizing_gates and singledispatch routing assumed; grouping strategies, tape "
+            "construction, the pauli_rep path of diagonalize_measurements, sign_expand / broadcast_expand and execution are "
+            "outside. F13 and F37 fixed in repo.",
             "DESIGN.md 4 C20", "E1"),
     "C21": ("other",
             "sidecar contracts on ops/mid_measure measurement_value.py (MeasurementValue._merge, _apply, _transform_bin_op, "
@@ -501,9 +508,17 @@ CLAIMED = {
             "frame of the finite frame domain is also run natively through the real code with exact matrix confirmation",
             "Tracking half: for every Pauli frame C P(x,z) C^dagger is proportional to P(commute_*(x,z)) for C in {H, S, CNOT}; "
             "encoding round-trips; pauli_prod == XOR-fold == matrix product up to phase for every list length; the dispatcher "
-            "uses the right table with control first and raises exactly as documented.",
-            "The MBQC conversion half (convert_to_mbqc_*, byproduct bookkeeping over a tape, measurement branches) is not "
-            "covered; operators abstracted to their class; commute_clifford_op size-bounded in xz length (0..3).",
+            "uses the right table with control first and raises exactly as documented. Conversion half: the real MBQC pattern "
+            "functions of ftqc/decomposition.py (queue_single_qubit_gate/queue_corrections for RZ and RotXZX with symbolic angles, "
+            "H, S; queue_cnot/cnot_corrections; default and diagonalized paths) are run and the queued programs are interpreted by "
+            "an independent exact interpreter on EVERY outcome branch (16 / 8192): the out wire carries U|psi>, all released "
+            "auxiliary wires are |0>, only the in-wire and pool wires are touched; the real body of convert_to_mbqc_formalism is "
+            "run with callee contracts for these patterns over enumerated tape shapes (size-bounded: <=3 wires, <=3 operations, "
+            "all wire assignments and read-out orders): same gates on tracked wire chains, read-out in the requested order.",
+            "Independent interpreter semantics (graph state, XY measurement bases, reset, Conditional) and QubitMgr are assumed; "
+            "the composition argument (patterns + composition => whole circuit) is stated, not mechanised; "
+            "convert_to_mbqc_gateset, the capture path and longer tapes are covered by a bounded sampled end-to-end stand-in only; "
+            "operators abstracted to their class; commute_clifford_op size-bounded in xz length (0..3).",
             "DESIGN.md 4 C74", "E1+E2"),
     "C52": ("other",
             "contracts on pauli/grouping/group_observables.py: the adjacency construction is enumerated on all word pairs of <= 3 "
@@ -604,6 +619,48 @@ CLAIMED = {
             "of process_state_with_shots and its density-matrix variant, entropy, median of means with k > 1 as an "
             "estimator, snapshots=/wires= sub-selection, other interfaces and shot vectors are not covered.",
             "DESIGN.md 7", "E2"),
+    "C32": ("other",
+            "E1 on the real result-packing code with per-measurement results as uninterpreted markers R(measurement, "
+            "state, batched, shot copy), so position and order are checked: measure_final_state, simulate (non-MCM path), "
+            "simulate_tree_mcm's shot-vector split (simulate.py); measure_with_samples with _group_measurements havocked "
+            "to ANY ordered partition and the four measuring helpers uninterpreted (preconditions proved at the call "
+            "sites), the packing ends of those helpers (sampling.py); _to_autograd, _to_jax, _res_to_torch (interfaces); "
+            "_zero_jvp, _compute_jvps, _compute_vjps (jacobian_products.py); modular callee contracts; native marker "
+            "replay on real QuantumScript/Shots objects",
+            "For every enumerated request shape (1-4 measurements, analytic and 5 shot patterns, 0-2 MCM samples, every "
+            "grouping of up to 3 measurements, batches of 1-2 circuits) and all values: a single measurement is "
+            "unwrapped, several become a tuple in measurement order, a shot vector adds the OUTER tuple, MCM samples come "
+            "last, interface converters keep the nesting, jvp/vjp assembling follows the same nesting (560 named "
+            "obligations, all size-bounded). A bounded native stand-in executes default.qubit through device.execute and "
+            "qp.execute with numpy / autograd / jax / torch (360 executions). Open known finding F38: broadcasted counts "
+            "are a list under numpy / torch and a tuple under autograd / jax.",
+            "Leaves are uninterpreted (array shapes inside a leaf are not modelled); Shots.__iter__/bins through the C44 "
+            "contracts; jax.random.split, sample_state assumed; _group_measurements, get_final_state, the one-shot MCM "
+            "path, execution.py / run.py / qnode.py, other devices, Jacobian nesting produced by gradient transforms and "
+            "the custom-vjp plumbing are not covered beyond the stand-in.",
+            "DESIGN.md 7", "E1"),
+    "C72": ("proof",
+            "E1 deductive verification of the real bodies of qaoa/cost.py (bit_driver, edge_driver, maxcut, "
+            "max_independent_set, min_vertex_cover, max_clique), x_mixer and LinearCombination.__add__/__mul__ for graphs "
+            "of SYMBOLIC size (node and edge sequences of symbolic length) and every bitstring (ghost set of nodes): the "
+            "diagonal value EV(coeffs, ops) = sum_k coeffs[k]*diag(ops[k]) is a snoc-defined spec function, loop "
+            "invariants relate it to independent colour / vertex counters, per-edge energy tables and additivity are "
+            "base+step lemma pairs, the problem builders run modularly through the callee contracts; native replay on "
+            "real networkx / rustworkx graphs; bounded qp.matrix stand-ins for all builders, mixers and the rustworkx "
+            "paths",
+            "For every graph and bitstring: bit_driver == (-1)^(b+1)(|V| - 2*ones); edge_driver == sum over edges of "
+            "(|R|/4 - [colouring in R]) for every admissible reward set (ValueError exactly for the rejected ones); "
+            "maxcut == -(cut edges); constrained / unconstrained max_independent_set, min_vertex_cover, max_clique equal "
+            "the objective written independently in terms of chosen vertices, violated / uncovered edges (complement "
+            "graph for max_clique); returned mixers are the documented builders on the documented arguments; EV(a+b) == "
+            "EV(a)+EV(b), EV(c*a) == c*EV(a) on the real LinearCombination arithmetic. networkx fully; edge_driver / MIS "
+            "/ MVC also on rustworkx. Docstring defect F39 (prefactor 3 vs 3/4) repaired.",
+            "A-float-as-real; the LinearCombination constructor, Z/Identity/X and @ are stub records (Pauli words); "
+            "models of qp.math.concatenate/multiply/copy/cast_like, nx.complement (same nodes, uninterpreted edges), "
+            "sorted(edge_list()) assumed; reward lists without duplicates; cycle.py (max_weight_cycle, loss_hamiltonian, "
+            "cycle_mixer, flow constraints), xy_mixer / bit_flip_mixer and maxcut / max_clique on rustworkx are bounded "
+            "or not covered.",
+            "DESIGN.md 7", "E1"),
     "C61": ("proof",
             "contract on step/step_and_cost/apply_grad/compute_grad of the six gradient optimizers: outputs == documented "
             "update rule; real methods executed on sympy-backed symbolic scalars from an arbitrary accumulator state with an "
